@@ -1035,3 +1035,7 @@ def run(ctx, shard):
     elif kind == 'repo-tests':
         from vmon.repotests import run_repo_tests
         run_repo_tests(ctx, ['test_manifold.py', 'test_manifold_ABk.py'])
+
+
+# thorough tier: every random shard is run this many times with independent random streams (see vmon/runner.py get_shards)
+THOROUGH_REPEAT = 6
